@@ -236,9 +236,25 @@ func checkStrengthThresholds(c *km.Ctx, s *km.Sem) {
 		return
 	}
 	accepted := map[string]bool{}
-	judge := func(k km.Conj) (string, bool) {
+	// a fact together with the frame it was found in: the parameters of a helper bound to the arguments of its call
+	type factEnv struct {
+		f   km.Fact
+		env map[*ssa.Parameter]*km.Sym
+	}
+	constOf := func(fe factEnv) (int64, bool) {
+		if kv, ok := km.ConstInt(fe.f.Y); ok {
+			return kv, true
+		}
+		if fe.f.Y == nil {
+			return 0, false
+		}
+		// a threshold kept in a (never written) package-level policy value handed down to the helper
+		return km.SymOfEnv(fe.f.Y, fe.env).ConstInt()
+	}
+	judge := func(fs []factEnv) (string, bool) {
 		typ := ""
-		for _, f := range k.List() {
+		for _, fe := range fs {
+			f := fe.f
 			if f.Op == token.ILLEGAL && f.Pol {
 				if ex, ok := f.X.(*ssa.Extract); ok && ex.Index == 1 {
 					if ta, ok := ex.Tuple.(*ssa.TypeAssert); ok {
@@ -250,11 +266,12 @@ func checkStrengthThresholds(c *km.Ctx, s *km.Sem) {
 		switch typ {
 		case "*crypto/rsa.PublicKey":
 			size, exp := false, false
-			for _, f := range k.List() {
+			for _, fe := range fs {
+				f := fe.f
 				if f.Op != token.GEQ && f.Op != token.GTR {
 					continue
 				}
-				kv, isC := km.ConstInt(f.Y)
+				kv, isC := constOf(fe)
 				if !isC {
 					continue
 				}
@@ -273,11 +290,12 @@ func checkStrengthThresholds(c *km.Ctx, s *km.Sem) {
 			}
 			return "rsa", size && exp
 		case "*crypto/ecdsa.PublicKey":
-			for _, f := range k.List() {
+			for _, fe := range fs {
+				f := fe.f
 				if f.Op != token.GEQ && f.Op != token.GTR {
 					continue
 				}
-				kv, isC := km.ConstInt(f.Y)
+				kv, isC := constOf(fe)
 				if !isC {
 					continue
 				}
@@ -294,6 +312,44 @@ func checkStrengthThresholds(c *km.Ctx, s *km.Sem) {
 		}
 		return "other(" + typ + ")", false
 	}
+	// trueCases: the ways boolean v can be true under k, each as the list of facts that then hold; a verdict handed
+	// up from a helper of the module is followed into the helper's returns (to depth 3)
+	var trueCases func(k km.Conj, v ssa.Value, env map[*ssa.Parameter]*km.Sym, depth int) [][]factEnv
+	trueCases = func(k km.Conj, v ssa.Value, env map[*ssa.Parameter]*km.Sym, depth int) [][]factEnv {
+		v = km.Unwrap(v)
+		kk, may := s.TrueFacts(k, v)
+		if !may {
+			return nil
+		}
+		var base []factEnv
+		for _, f := range kk.List() {
+			base = append(base, factEnv{f, env})
+		}
+		hc, hi := callRes(v)
+		if hc == nil || hi != 0 || depth >= 3 {
+			return [][]factEnv{base}
+		}
+		h := km.StaticCallee(hc.Common())
+		if h == nil || len(h.Blocks) == 0 || !c.InModule(h) || h.Signature.Results().Len() != 1 {
+			return [][]factEnv{base}
+		}
+		args := km.CallArgs(hc.Common())
+		env2 := map[*ssa.Parameter]*km.Sym{}
+		for i, q := range h.Params {
+			if i < len(args) && args[i] != nil {
+				env2[q] = km.SymOfEnv(args[i], env)
+			}
+		}
+		var out [][]factEnv
+		for _, rc2 := range s.RetCases(h) {
+			for _, d2 := range rc2.State {
+				for _, sub := range trueCases(d2, rc2.Results[0], env2, depth+1) {
+					out = append(out, append(append([]factEnv{}, base...), sub...))
+				}
+			}
+		}
+		return out
+	}
 	for _, rc := range s.RetCases(fn) {
 		v := km.Unwrap(rc.Results[0])
 		nAcc := 0
@@ -301,17 +357,15 @@ func checkStrengthThresholds(c *km.Ctx, s *km.Sem) {
 		var kinds []string
 		for _, k := range rc.State {
 			// the facts under which this return yields true (a refusal path is of no concern)
-			kk, mayBeTrue := s.TrueFacts(k, v)
-			if !mayBeTrue {
-				continue
-			}
-			nAcc++
-			kind, good := judge(kk)
-			kinds = appendUniq(kinds, kind)
-			if good {
-				accepted[kind] = true
-			} else {
-				okAll = false
+			for _, fs := range trueCases(k, v, nil, 0) {
+				nAcc++
+				kind, good := judge(fs)
+				kinds = appendUniq(kinds, kind)
+				if good {
+					accepted[kind] = true
+				} else {
+					okAll = false
+				}
 			}
 		}
 		if nAcc == 0 {
@@ -779,9 +833,15 @@ func checkDecoderPanics(c *km.Ctx, s *km.Sem) {
 					guarded, how = true, "every service handler is wrapped by NewLoggingHandler"
 				}
 			}
-			key := km.NameOf(fn) + "|" + rs.expr
+			kexpr := rs.expr
+			if i := strings.Index(kexpr, ".TLS.VerifiedChains["); i >= 0 && isPlainIdentS(kexpr[:i]) && km.NameOf(fn) == "getUsernameIfIPRestricted" {
+				// the chains read from the request inside instead of handed in: the same construct, and the
+				// caller guard below is then required on the request's chains
+				kexpr = kexpr[i+len(".TLS."):]
+			}
+			key := km.NameOf(fn) + "|" + kexpr
 			if fn.Parent() != nil {
-				key = km.NameOf(fn.Parent()) + "$|" + rs.expr
+				key = km.NameOf(fn.Parent()) + "$|" + kexpr
 			}
 			if !guarded {
 				if reason, ok := reviewedRisks[key]; ok {
@@ -829,11 +889,18 @@ func checkDecoderPanics(c *km.Ctx, s *km.Sem) {
 		for _, cs := range c.G.Callers[fn] {
 			st := c.F.At(cs.Instr)
 			a := km.CallArgs(cs.Instr.(ssa.CallInstruction).Common())
-			ok := st.All(func(k km.Conj) bool { return lenAtLeast(k, a[1], 1) })
+			gone := len(a) <= 1 || a[1] == nil || km.IsNilConst(a[1])
+			ok := !gone && st.All(func(k km.Conj) bool { return lenAtLeast(k, a[1], 1) })
 			if !ok {
 				// the call may sit in a helper of checkAuth that is itself only called under the guard: the guard on
-				// the request's verified chains is then required on every path into the helper
-				if _, path, isFP := km.FieldPath(km.Unwrap(a[1])); isFP && strings.HasSuffix(path, "TLS.VerifiedChains") {
+				// the request's verified chains is then required on every path into the helper (the same when the
+				// chains are no longer handed in but read from the request inside)
+				isReq := gone
+				if !isReq {
+					_, path, isFP := km.FieldPath(km.Unwrap(a[1]))
+					isReq = isFP && strings.HasSuffix(path, "TLS.VerifiedChains")
+				}
+				if isReq {
 					chains := km.Prim{Name: "len(r.TLS.VerifiedChains) >= 1", Rel: func(f km.Fact, _ func(ssa.Value) ssa.Value) bool {
 						cl, isCall := f.X.(*ssa.Call)
 						if !isCall {
@@ -986,4 +1053,17 @@ func checkIPv4Decoder(c *km.Ctx, s *km.Sem, rule string) {
 		}
 		c.R.Add(rule, km.FuncName(fn), "bounded copy (copy builtin form)", c.P.Pos(fn.Pos()), "the decoder moves bytes either by a bounded indexed loop or by the copy builtin (which cannot overrun)", sprintf("copy builtin used=%v", hasCopy), hasCopy)
 	}
+}
+
+func isPlainIdentS(s string) bool {
+	if s == "" {
+		return false
+	}
+	for i := 0; i < len(s); i++ {
+		ch := s[i]
+		if !(ch == '_' || (ch >= 'a' && ch <= 'z') || (ch >= 'A' && ch <= 'Z') || (i > 0 && ch >= '0' && ch <= '9')) {
+			return false
+		}
+	}
+	return true
 }
